@@ -17,9 +17,10 @@ func TestMain(m *testing.M) { vf.Main(m, "C06") }
 // ---------------- Windings / Crossings / Contains ----------------
 
 type WCase struct {
-	Path gen.PathSpec `json:"path"`
-	Q    [][2]float64 `json:"points"`
-	Kind []string     `json:"kinds"`
+	Path   gen.PathSpec `json:"path"`
+	Q      [][2]float64 `json:"points"`
+	Kind   []string     `json:"kinds"`
+	Family string       `json:"family,omitempty"` // constructed families (shapes_test.go): the class of F06c does not apply
 }
 
 func genW(t *rapid.T) WCase {
@@ -308,7 +309,7 @@ func checkW(c WCase, r *vf.R) error {
 			if r.Excluded("F06a", hasOpen) {
 				continue
 			}
-			if r.Excluded("F06c", hasCurve && nearLevel(ys, q.Y)) {
+			if r.Excluded("F06c", c.Family == "" && hasCurve && nearLevel(ys, q.Y)) {
 				continue
 			}
 			if r.Excluded("F06d", coincident(segs, q)) {
@@ -325,7 +326,7 @@ func checkW(c WCase, r *vf.R) error {
 			if hasOpen && (gw != w || gc != cr || bw) && r.Excluded("F06a", true) {
 				continue
 			}
-			if hasCurve && nearLevel(ys, q.Y) && (gw != w || bw) && r.Excluded("F06c", true) {
+			if c.Family == "" && hasCurve && nearLevel(ys, q.Y) && (gw != w || bw) && r.Excluded("F06c", true) {
 				continue
 			}
 			if (gw != w || bw) && r.Excluded("F06d", coincident(segs, q)) {
@@ -463,7 +464,9 @@ func genF(t *rapid.T) FCase {
 		scale := 10.0
 		for d := 0; d < depth; d++ {
 			c.Contours = append(c.Contours, genContour(t, cx, cy, scale))
-			scale *= 0.4 // min radius 0.5*scale > max radius of the child 0.4*scale*1.15
+			// the edges of a triangle with vertices at radius >= 0.5*scale come as close as 0.25*scale to the centre:
+			// the child (max radius 0.2*scale*1.15) stays inside
+			scale *= 0.2
 		}
 	}
 	// shuffle order of subpaths deterministically from a drawn permutation
@@ -603,5 +606,5 @@ func levelClash(segs []oracle.Seg) (curvedLevel, almostLevel bool) {
 }
 
 func TestCCWFilling(t *testing.T) {
-	vf.Run(t, vf.Prop[FCase]{Sub: "ccwfilling", Gen: genF, Check: checkF, Cases: vf.N(1500, 30000)})
+	vf.Run(t, vf.Prop[FCase]{Sub: "ccwfilling", Gen: genF, Check: checkF, Cases: vf.N(800, 30000)})
 }
